@@ -642,6 +642,9 @@ def check_c18(tier, seed):
                  "Non-trivial: the output path had a prior state other than absent, or a fault fired; distinct = hash of the step list."),
         "samples": [{"history": h["steps"][4:], "record": rec["steps"][4:]} for h, rec in recs[:2]],
         "cli_processes": ex.procs, "reference_processes": ex.ref_procs, "run_steps": nruns,
+        "distinct_states": len(set(json.dumps([st.get("argv", [None])[0], len(st.get("argv", [])), st.get("prior"), (st.get("fault") or {}).get("op"), (st.get("fault") or {}).get("err"), st.get("fired"), st.get("rc"), st.get("ref_ok")])
+                                   for h, rec in recs for st in rec["steps"] if "argv" in st)),
+        "distinct_states_measure": "distinct (sub-command, argument count, prior state of the output path, fault op, fault kind, fired, exit status, reference ok) tuples over all run steps",
         "fault_kinds_fired": faults, "probes": probes, "probes_never_hit": [p for p in want_probes if not probes.get(p)],
         "model_validation_against_real_fs": mv,
         "runs_per_hour": int(len(recs) / wall * 3600), "seeds_per_hour": int(len(recs) / wall * 3600),
@@ -783,6 +786,8 @@ def check_c11(tier, seed):
         "probes": stats["probes"], "probes_never_hit": [p for p in ("send_released_with_full_buffer", "close_with_events_still_buffered") if not stats["probes"].get(p)],
         "simulated_time": {"unit": "fake-clock seconds", "value": round(stats["sim_ns"] / 1e9, 1)},
         "scheduler_steps": stats["steps"],
+        "distinct_interleavings": len(set(json.dumps([r["choices"], r.get("sels")]) for r in results)),
+        "distinct_event_channel_states": len(set(json.dumps([r["cell"]["entry"], r["cell"]["cap"], r["cell"]["consumer"], r["events"], r.get("closed"), r.get("returned")]) for r in results)),
         "runs_per_hour": int(len(results) / wall * 3600), "seeds_per_hour": int(len(results) / wall * 3600),
         "fault_free_event_lists": ff,
         "components": COMPONENTS, "tree_hash": sc.tree_hash,
